@@ -227,11 +227,16 @@ func RunCase(c *Case) (msg string, labels []string, nontrivial bool) {
 func propMutant(t *rapid.T) {
 	cfg := drawConfig(t)
 	cfg.MaxFuncs = rapid.IntRange(1, 5).Draw(t, "mutfuncs")
+	// an edit can take the generator's NaN canonicalisation apart (observed: swapping the
+	// canonical-NaN constant with the local.set/local.get next to it lets the raw payload of
+	// f32x4.min/max reach the sink, which the specification leaves open): the edited programs
+	// contain no instruction with an unspecified NaN result
+	cfg.NoNaNOps = true
 	m := wasmgen.Generate(t, cfg)
 	script := Script(t, m)
 	mm := *m
 	var op string
-	mm.Bytes, op = wasmgen.MutateIns(t, m)
+	mm.Bytes, op = wasmgen.MutateIns(t, m, true)
 	c := &Case{Module: &mm, Script: script, Fuel: cfg.FuelInit, Mutant: true}
 	evid.Journal(c)
 	msg, labels, nt := RunCase(c)
